@@ -13,18 +13,33 @@ E1 (explicit-state exploration on the real objects)
     with ties on every column.  Model: list of rows.  After append the rows must equal the model in order; after
     sort the sorted column must be monotone and the multiset of whole rows unchanged (values compared with ==),
     then the model adopts the implementation's order (order among ties is not demanded).
+  * Fault transitions (round 2): operations the object must refuse are part of the alphabets.  Table: t[k] = 4 /
+    t.append(k, None) (no record can be built) for every key, t.append(4) un-keyed.  A refused assignment of an
+    existing key must leave the table unchanged.  For a refused assignment of a NEW key the statement does not say
+    whether the key's position is reserved, so the keyed model is a SET of candidate dicts (fork: nothing happened /
+    position reserved); while a refused key is pending only access by key / attribute / `in` of the other keys is
+    judged; once every pending key has been assigned or deleted the full read-out must equal ONE candidate (the
+    object must be a consistent map again).  Deviation bound: at most 1 (quick) / 2 (thorough) refused new keys
+    pending at a time.  Collector (configurations with declared columns): dict rows with a missing / an extra
+    name; if refused, the collector must still hold exactly the model's rows (no partial append); if accepted the
+    case is not judged and not explored further.
   * Guard for the de-duplication argument: ALL operation sequences up to a smaller depth are executed unpruned.
 E2 (complete enumeration)
   * DataPlotGrid: every (n, ncols, list|dict, normal|transposed): data cells + missing cells are pairwise distinct,
     cover {0..nrows-1}x{0..ncols-1} exactly once, indices run 0..nrows*ncols-1 in order, payload is the data in
     order, row-major (normal) / column-major (transposed) as documented.
-  * DataCombination: every list of item lists within the bound, three value variants: keys()/values()/items() equal
-    the Cartesian product computed by plain nested recursion (no itertools).
+  * DataCombination: every list of item lists within the bound, three value variants (unique labels, the same
+    numbers in every list, tuples as item lists) plus (round 2) EVERY equality pattern inside the item lists
+    (restricted growth strings: [0,1,0] = first and third value equal) rendered three ways: repeated labels,
+    ==-equal values of different type (1, 1.0, True, Fraction(1)), equal but unhashable values ([0], [0]).
+    keys()/values()/items() must equal the Cartesian product computed by plain nested recursion (no itertools);
+    index tuples compared with ==, values by type + repr.
 
 Not demanded (left out of the alphabets, the statement is silent): negative positions, integer keys, positional
 delete on a keyed table, `in`/keys()/attribute access on an un-keyed table, records with a wrong number of values,
-list rows on a collector without columns, rows whose length differs from the number of columns, dict rows with
-missing/extra names, columns holding values of different types, sort by an unknown column, order among tied rows,
+list rows on a collector without columns, rows whose length differs from the number of columns, that a dict row with
+missing/extra names is refused (only: no partial append if it is), the state of a keyed table between a refused
+assignment of a new key and its retry/delete, columns holding values of different types, sort by an unknown column, order among tied rows,
 the container type of the read-outs (list / ndarray / dict view), to_dataframe()/to_text().
 """
 import hashlib
@@ -39,7 +54,8 @@ RULE = ("E1 case = one transition (canonical implementation state, operation) of
         "non-trivial = the operation acts on a non-empty table/collector (overwrite, delete, positional shift, "
         "re-insert, sort or append after rows exist).  The unpruned guard pass (all sequences up to a smaller depth) "
         "is counted in evaluations/transitions only.  E2 case = one (n, ncols, list|dict, normal|transposed) grid "
-        "(non-trivial: n >= 2) or one (shape of item lists, value variant) combination (non-trivial: >= 2 lists)")
+        "(non-trivial: n >= 2) or one (shape or equality patterns of the item lists, value variant) combination "
+        "(non-trivial: >= 2 lists).  Refused operations (fault transitions) are ordinary transitions of the graph")
 ASSUMPTIONS = [
     "vars(object) (recursively, incl. value types and numpy dtypes) is all the state the four classes hold, so two "
     "histories ending in the same canonical state have equal futures; guarded by executing every operation "
@@ -48,14 +64,16 @@ ASSUMPTIONS = [
     "nested-loop Cartesian product; values compared by type+repr for table records, by == for collector rows",
     "order among rows with equal sort key is not demanded; the model adopts the implementation's order after a "
     "sort that passed the monotonicity and multiset checks",
+    "a refused assignment of a not-yet-present key may or may not reserve the key's position (both candidate models "
+    "are kept); the table is judged in full only when no refused key is pending, and must then equal one candidate",
 ]
 
 # ------------------------------------------------------------------------------------------------ bounds
 FIELDS = ["p", "q"]
 RECS = [[1, 2.5], [0, "x"], [None, "yy"]]          # records (second one starts with a falsy value)
 PT = dict(
-    quick=dict(keys="abcd", nrec=2, depth=6, useq=3, urec=3, upos=5),
-    thorough=dict(keys="abcde", nrec=2, depth=7, useq=4, urec=3, upos=6),
+    quick=dict(keys="abcd", nrec=2, depth=6, useq=3, urec=3, upos=5, pending=1),
+    thorough=dict(keys="abcde", nrec=2, depth=7, useq=4, urec=3, upos=6, pending=2),
 )
 ROWS = [[1, "b"], [2, "a"], [1, "a"], [3, "c"]]     # ties on both columns
 ROWS_T = [[1, "b"], [2, "a"], [1, "a"], [3, "cc"]]  # typed array mode: one string longer than one character
@@ -71,7 +89,8 @@ RC_CFG = {
 }
 RC = dict(quick=dict(depth=5, useq=3), thorough=dict(depth=6, useq=4))
 GRID = dict(quick=dict(nmax=12, cmax=6), thorough=dict(nmax=40, cmax=12))
-COMB = dict(quick=dict(lists=3, length=3), thorough=dict(lists=4, length=4))
+COMB = dict(quick=dict(lists=3, length=3, plists=3, plength=3), thorough=dict(lists=4, length=4, plists=3, plength=4))
+PVARIANTS = ("pattern-labels", "pattern-eqtypes", "pattern-unhashable")
 
 
 # ------------------------------------------------------------------------------------------------ helpers
@@ -82,6 +101,9 @@ def _np():
 
 def canon(x):
     """canonical, hashable form of everything an object holds (value types included)"""
+    tx = type(x)
+    if tx is str or tx is int or tx is bool or x is None:
+        return (tx.__name__, x)
     np = _np()
     if isinstance(x, np.ndarray):
         return ("nd", str(x.dtype), tuple(canon(v) for v in x.tolist()))
@@ -108,8 +130,18 @@ def _obs(fn):
         return ["raises", type(e).__name__]
 
 
+_VC = {}
+
+
 def _v(v):
-    return [type(v).__name__, repr(v)]
+    """[type name, repr] of a stored value (cached per object; the cache keeps the object alive)"""
+    e = _VC.get(id(v))
+    if e is not None and e[0] is v:
+        return e[1]
+    r = [type(v).__name__, repr(v)]
+    if len(_VC) < 10000:
+        _VC[id(v)] = (v, r)
+    return r
 
 
 def _rec(r):
@@ -118,9 +150,15 @@ def _rec(r):
                 data=[[k, _v(v)] for k, v in r.data().items()])
 
 
+_RM = {}
+
+
 def _rec_model(vals):
-    vv = [_v(x) for x in vals]
-    return dict(keys=list(FIELDS), item=vv, attr=vv, data=[[f, x] for f, x in zip(FIELDS, vv)])
+    e = _RM.get(vals)
+    if e is None:
+        vv = [_v(x) for x in vals]
+        e = _RM[vals] = dict(keys=list(FIELDS), item=vv, attr=vv, data=[[f, x] for f, x in zip(FIELDS, vv)])
+    return e
 
 
 def _first_diff(exp, got):
@@ -143,21 +181,28 @@ def _beh(name, e, g):
 
 
 # ================================================================================================ ParameterTable
+LIMBO = ("<key registered by a failed assignment, no record>",)
+BAD = {"append!": 4, "set!": None}          # values no record can be built from (not iterable)
+
+
 def _pt_new(keyed, root, cfg):
+    """fresh real table + model (keyed: LIST of candidate dicts, see _pt_apply; un-keyed: list)"""
     from scinumtools import ParameterTable
     if root[0] == "new":
         if keyed:
-            return ParameterTable(list(FIELDS), keys=True), {}
+            return ParameterTable(list(FIELDS), keys=True), [{}]
         return ParameterTable(list(FIELDS)), []
     n = root[1]
     if keyed:
         params = {cfg["keys"][i]: list(RECS[i % 2]) for i in range(n)}
-        return ParameterTable(list(FIELDS), params, keys=True), {k: tuple(v) for k, v in params.items()}
+        return ParameterTable(list(FIELDS), params, keys=True), [{k: tuple(v) for k, v in params.items()}]
     params = [list(RECS[i % 2]) for i in range(n)]
     return ParameterTable(list(FIELDS), params), [tuple(v) for v in params]
 
 
-def _pt_ops(keyed, cfg):
+def _pt_ops(keyed, cfg, model=None):
+    """operations enabled in the state described by the model.  Deviation bound: a refused assignment of a NEW key
+    is enabled only while fewer than cfg['pending'] such refusals are unresolved (not yet retried / deleted)."""
     ops = []
     if keyed:
         for k in cfg["keys"]:
@@ -166,41 +211,84 @@ def _pt_ops(keyed, cfg):
                 ops.append(["set", k, r])
         for k in cfg["keys"]:
             ops.append(["del", k])
+        pending = max(sum(1 for v in c.values() if v is LIMBO) for c in model) if model else 0
+        for k in cfg["keys"]:                     # fault transitions: the record cannot be built
+            if pending >= cfg["pending"] and any(k not in c for c in (model or [])):
+                continue
+            ops.append(["append!", k])
+            ops.append(["set!", k])
     else:
         for r in range(cfg["urec"]):
             ops.append(["append", r])
         for i in range(cfg["upos"]):
             ops.append(["del", i])
+        ops.append(["append!"])
     return ops
 
 
+def _dedup(cands):
+    out, seen = [], set()
+    for c in cands:
+        key = tuple(c.items())
+        if key not in seen:
+            seen.add(key)
+            out.append(c)
+    return out
+
+
 def _pt_apply(t, m, keyed, op):
-    """apply op to the real table and to the model; returns (expected kind, observed outcome)"""
+    """Apply op to the real table and to the model; returns (expected kind or None, observed outcome, model).
+
+    Keyed model = list of candidate insertion-ordered dicts.  The statement does not say what a REFUSED assignment
+    of a not-yet-present key leaves behind, so such an operation forks every candidate into 'nothing happened' and
+    'the key's position is reserved' (value LIMBO, as the library does); a candidate containing LIMBO is an
+    undefined state.  A later successful assignment of the key resolves it (dict assignment keeps the reserved
+    position), a delete removes it whatever its outcome.  Expected kind None = outcome of the operation not judged."""
     def _del(x):
         del t[x]
     if keyed:
-        if op[0] == "append":
-            got = _obs(lambda: t.append(op[1], list(RECS[op[2]])))
-            m[op[1]] = tuple(RECS[op[2]])
-            return "ok", got
-        if op[0] == "set":
-            got = _obs(lambda: t.__setitem__(op[1], list(RECS[op[2]])))
-            m[op[1]] = tuple(RECS[op[2]])
-            return "ok", got
-        got = _obs(lambda: _del(op[1]))
-        if op[1] in m:
-            del m[op[1]]
-            return "ok", got
-        return "raises", got
+        kinds = set()
+        if op[0] in ("append", "set"):
+            rec = tuple(RECS[op[2]])
+            got = _obs((lambda: t.append(op[1], list(rec))) if op[0] == "append"
+                       else (lambda: t.__setitem__(op[1], list(rec))))
+            for c in m:
+                c[op[1]] = rec
+            kinds.add("ok")
+        elif op[0] in ("append!", "set!"):
+            bad = BAD[op[0]]
+            got = _obs((lambda: t.append(op[1], bad)) if op[0] == "append!" else (lambda: t.__setitem__(op[1], bad)))
+            forks = []
+            for c in m:
+                if op[1] not in c:
+                    f = dict(c)
+                    f[op[1]] = LIMBO
+                    forks.append(f)
+            m = m + forks
+            kinds.add("raises")
+        else:
+            got = _obs(lambda: _del(op[1]))
+            for c in m:
+                if op[1] not in c:
+                    kinds.add("raises")
+                else:
+                    kinds.add(None if c[op[1]] is LIMBO else "ok")
+                    del c[op[1]]
+        m = _dedup(m)
+        kind = kinds.pop() if len(kinds) == 1 else None
+        return kind, got, m
     if op[0] == "append":
         got = _obs(lambda: t.append(list(RECS[op[1]])))
         m.append(tuple(RECS[op[1]]))
-        return "ok", got
+        return "ok", got, m
+    if op[0] == "append!":
+        got = _obs(lambda: t.append(BAD["append!"]))
+        return "raises", got, m
     got = _obs(lambda: _del(op[1]))
     if op[1] < len(m):
         del m[op[1]]
-        return "ok", got
-    return "raises", got
+        return "ok", got, m
+    return "raises", got, m
 
 
 def _iter_capped(t, cap):
@@ -246,6 +334,23 @@ def _pt_expected(m, keyed, cfg):
     return exp
 
 
+def _pt_partial(cands, cfg):
+    """what is demanded in an undefined state: access by key / attribute / `in` for every key on which all
+    candidates agree (present with the same record, or absent)"""
+    exp = []
+    for k in cfg["keys"]:
+        vals = [c.get(k, "absent") for c in cands]
+        if any(v is LIMBO for v in vals) or any(v != vals[0] for v in vals):
+            continue
+        if vals[0] == "absent":
+            exp += [("key[%s]" % k, ["raises", "KeyError"]), ("attr[%s]" % k, ["raises", "KeyError"]),
+                    ("in[%s]" % k, ["ok", False])]
+        else:
+            r = _rec_model(vals[0])
+            exp += [("key[%s]" % k, ["ok", r]), ("attr[%s]" % k, ["ok", r]), ("in[%s]" % k, ["ok", True])]
+    return exp
+
+
 def _pt_readout(t, n, keyed, cfg):
     """the same observations on the real table (n = length according to the model)"""
     got = []
@@ -280,7 +385,7 @@ def _pt_readout(t, n, keyed, cfg):
 def _pt_tags(keyed, hist, cfg):
     """features of the history (input side)"""
     tags = ["keyed" if keyed else "unkeyed"]
-    live, dead, n = set(), set(), 0
+    live, dead, failed, n = set(), set(), {}, 0       # failed: key -> new keys inserted since the refusal
     if hist[0][0] == "ctor":
         tags.append("ctor-params")
         n = hist[0][1]
@@ -291,20 +396,40 @@ def _pt_tags(keyed, hist, cfg):
             if op[0] in ("append", "set"):
                 if op[1] in live:
                     tags.append("overwrite")
+                elif op[1] in failed:
+                    tags.append("retry-after-failed-assignment")
+                    if failed[op[1]]:
+                        tags.append("insertion-between-failed-assignment-and-retry")
                 elif op[1] in dead:
                     tags.append("reinsert-after-delete")
+                if op[1] not in live:
+                    for k in failed:
+                        if k != op[1]:
+                            failed[k] += 1
                 live.add(op[1])
+                failed.pop(op[1], None)
+            elif op[0] in ("append!", "set!"):
+                if op[1] in live:
+                    tags.append("failed-overwrite")
+                else:
+                    tags.append("failed-assignment-of-new-key")
+                    failed.setdefault(op[1], 0)
             else:
                 if op[1] in live:
                     tags.append("delete")
                     live.discard(op[1])
                     dead.add(op[1])
+                elif op[1] in failed:
+                    tags.append("delete-after-failed-assignment")
+                    failed.pop(op[1], None)
                 else:
                     tags.append("delete-absent")
             n = len(live)
         else:
             if op[0] == "append":
                 n += 1
+            elif op[0] == "append!":
+                tags.append("failed-append")
             elif op[1] < n:
                 tags.append("delete")
                 n -= 1
@@ -325,12 +450,27 @@ def _pt_run(keyed, hist, cfg):
     t, m = _pt_new(keyed, hist[0], cfg)
     kind, got = "ok", ["ok", None]
     for op in hist[1:]:
-        kind, got = _pt_apply(t, m, keyed, op)
+        kind, got, m = _pt_apply(t, m, keyed, op)
     case = dict(part=sub, tier_bounds=dict(keys=cfg["keys"]), history=hist)
-    if got[0] != kind:
+    if kind is not None and got[0] != kind:
         return t, m, failure(sub, case, "operation %s" % kind, got, tags=_pt_tags(keyed, hist, cfg),
                              behaviour="op-%s" % ("accepted" if got[0] == "ok" else "raises:" + got[1]))
-    d = _first_diff(_pt_expected(m, keyed, cfg), _pt_readout(t, len(m), keyed, cfg))
+    if not keyed:
+        d = _first_diff(_pt_expected(m, False, cfg), _pt_readout(t, len(m), False, cfg))
+    elif any(v is LIMBO for c in m for v in c.values()):
+        # undefined state (a refused assignment of a new key is pending): judge only what all candidates agree on
+        exp = _pt_partial(m, cfg)
+        allgot = dict(_pt_readout(t, 0, True, cfg))
+        d = _first_diff(exp, [(n_, allgot[n_]) for n_, _ in exp])
+    else:
+        rd = _pt_readout(t, len(m[0]), True, cfg)
+        diffs = [_first_diff(_pt_expected(c, True, cfg), rd) for c in m]
+        keep = [c for c, x in zip(m, diffs) if x is None]
+        if keep:
+            m, d = keep, None                         # the implementation chose among the admissible orders
+        else:                                         # report against the candidate that agrees longest
+            names = [n_ for n_, _ in rd]
+            d = max(diffs, key=lambda x: names.index(x[0]))
     if d:
         name, e, g = d
         return t, m, failure(sub, case, {name: e}, {name: g}, tags=_pt_tags(keyed, hist, cfg),
@@ -371,6 +511,8 @@ def _rc_ops(cname, model):
             ops.append(["list", i])
         for i in range(len(c["rows"])):
             ops.append(["dict", i, "yx"])
+        ops.append(["dict!", 0, "missing"])      # fault transitions: a dict row that cannot be stored
+        ops.append(["dict!", 1, "extra"])
     for col in COLS:
         ops.append(["sort", col, False])
         ops.append(["sort", col, True])
@@ -443,6 +585,8 @@ def _rc_tags(cname, hist):
     kinds = [op[0] for op in hist[1:]]
     if "sort" in kinds[:-1]:
         tags.append("after-sort")
+    if "dict!" in kinds[:-1]:
+        tags.append("after-refused-append")
     if kinds:
         last = hist[-1]
         tags.append("last=" + last[0])
@@ -471,6 +615,27 @@ def _rc_run(cname, hist):
                                       tags=_rc_tags(cname, hist), behaviour="ctor-rows-not-preserved")
         return rc, model, None
     for k, op in enumerate(hist[1:], start=1):
+        if op[0] == "dict!":
+            row = c["rows"][op[1]]
+            d = {"x": row[0]} if op[2] == "missing" else {"x": row[0], "y": row[1], "z": 0}
+            res = _obs(lambda: rc.append(d))
+            if res[0] == "ok":
+                model["undefined"] = True            # accepting such a row is not judged and not explored further
+                return rc, model, None
+            if k != last:
+                continue
+            try:                                     # refused: the collector must still hold exactly the model's rows
+                got = _rc_rows(rc, model)
+            except _Diff as d_:
+                return rc, model, failure(sub, case, {d_.what: d_.exp}, {d_.what: d_.got},
+                                          tags=_rc_tags(cname, hist), behaviour="refused-append-" + d_.what)
+            except Exception as e:
+                return rc, model, failure(sub, case, "read-out works", [type(e).__name__, str(e)[:200]],
+                                          tags=_rc_tags(cname, hist), behaviour="readout-raises:" + type(e).__name__)
+            if not _same(got, model["rows"]):
+                return rc, model, failure(sub, case, _rows_js(model["rows"]), _rows_js(got),
+                                          tags=_rc_tags(cname, hist), behaviour="refused-append-changed-table")
+            continue
         if op[0] == "list":
             row = c["rows"][op[1]]
             res = _obs(lambda: rc.append(list(row)))
@@ -555,7 +720,7 @@ def _e1_run(part, name, hist, cfg):
 
 def _e1_ops(part, name, model, cfg):
     if part == "pt":
-        return _pt_ops(name == "keyed", cfg)
+        return _pt_ops(name == "keyed", cfg, model if name == "keyed" else None)
     return _rc_ops(name, model)
 
 
@@ -568,7 +733,9 @@ def _e1_roots(part, name):
 
 
 def _size(part, model):
-    return len(model) if part == "pt" else len(model["rows"])
+    if part == "rc":
+        return len(model["rows"])
+    return len(model[0]) if model and isinstance(model[0], dict) else len(model)
 
 
 def _bfs(part, name, cfg, depth, sh):
@@ -605,6 +772,9 @@ def _bfs(part, name, cfg, depth, sh):
                 if bad:
                     sh.fail(bad)
                     continue                         # do not explore beyond the first divergence
+                if part == "rc" and m2.get("undefined"):
+                    sh.count(pre + ":unjudged-accepted-malformed-row")
+                    continue
                 st = _digest(pre, canon(obj))
                 if st not in seen:
                     seen[st] = h
@@ -633,6 +803,8 @@ def _seq(part, name, cfg, depth, first, sh):
         sh.max_depth = max(sh.max_depth, len(hist) - 1)
         if bad:
             sh.fail(bad)
+            return
+        if part == "rc" and model.get("undefined"):
             return
         sh.add_to_set("states", _digest(pre, canon(obj)))
         if len(hist) - 1 < depth:
@@ -709,6 +881,25 @@ def _shapes(nlists, maxlen):
     return [(a,) + rest for a in range(maxlen + 1) for rest in _shapes(nlists - 1, maxlen)]
 
 
+def _patterns(n):
+    """all equality patterns of n positions (restricted growth strings): [0,1,0] = first and third value equal"""
+    if n == 0:
+        return [()]
+    out = []
+    for p in _patterns(n - 1):
+        for b in range((max(p) + 1 if p else 0) + 1):
+            out.append(p + (b,))
+    return out
+
+
+def _pattern_lists(nlists, maxlen):
+    """all tuples of nlists equality patterns of length 0..maxlen"""
+    one = [p for n in range(maxlen + 1) for p in _patterns(n)]
+    if nlists == 0:
+        return [()]
+    return [(a,) + rest for a in one for rest in _pattern_lists(nlists - 1, maxlen)]
+
+
 def _product(lists):
     """Cartesian product by plain recursion: [(index tuple, value tuple)], first list varying slowest"""
     if not lists:
@@ -720,23 +911,51 @@ def _product(lists):
     return out
 
 
-def _comb_lists(shape, variant):
+def _eq_value(block, occurrence):
+    """values of one block compare equal (==, same hash) but have different types"""
+    from fractions import Fraction
+    base = [1, 0, 2, 3, 4][block]
+    if block < 2:
+        return [base, float(base), bool(base), Fraction(base)][occurrence % 4]
+    return [base, float(base), complex(base), Fraction(base)][occurrence % 4]
+
+
+def _comb_lists(shape, variant, patterns=None):
     if variant == "unique":
         return [["%s%d" % (chr(97 + i), j) for j in range(n)] for i, n in enumerate(shape)]
     if variant == "shared":
         return [[j * 10 for j in range(n)] for n in shape]           # same values in every list
-    return [tuple((i, j) for j in range(n)) for i, n in enumerate(shape)]   # item lists given as tuples
+    if variant == "tuples":
+        return [tuple((i, j) for j in range(n)) for i, n in enumerate(shape)]   # item lists given as tuples
+    out = []
+    for p in patterns:
+        if variant == "pattern-labels":              # repeated values inside an item list
+            out.append([["lin", "log", "sqrt", "exp", "inv"][b] for b in p])
+        elif variant == "pattern-eqtypes":           # ==-equal values of different type inside an item list
+            seen = {}
+            lst = []
+            for b in p:
+                lst.append(_eq_value(b, seen.get(b, 0)))
+                seen[b] = seen.get(b, 0) + 1
+            out.append(lst)
+        else:                                        # "pattern-unhashable": equal but distinct list objects
+            out.append([[b] for b in p])
+    return out
 
 
-def _comb_case(shape, variant):
+def _comb_case(shape, variant, patterns=None):
     from scinumtools import DataCombination
     case = dict(part="combination", shape=list(shape), variant=variant)
     tags = ["lists=%d" % len(shape), "variant=" + variant]
+    if patterns is not None:
+        case["patterns"] = [list(p) for p in patterns]
+        if any(len(set(p)) < len(p) for p in patterns):
+            tags.append("equal-values-in-one-list")
     if len(shape) >= 3:
         tags.append("lists>=3")
     if 0 in shape:
         tags.append("empty-item-list")
-    lists = _comb_lists(shape, variant)
+    lists = _comb_lists(shape, variant, patterns)
     exp = _product(lists)
 
     def run():
@@ -747,14 +966,21 @@ def _comb_case(shape, variant):
     if o[0] == "err":
         return failure("combination", case, "enumerates", list(o[1:]), tags=tags, behaviour="raises:" + o[1])
     keys, values, items = o[1]
-    js = lambda xs: [list(x) for x in xs]
-    if keys != [k for k, _ in exp]:
-        return failure("combination", case, js(k for k, _ in exp), js(keys), tags=tags, behaviour="keys-differ")
-    if values != [v for _, v in exp]:
-        return failure("combination", case, js(v for _, v in exp), js(values), tags=tags, behaviour="values-differ")
-    if items != exp:
-        return failure("combination", case, [[list(k), list(v)] for k, v in exp],
-                       [[list(k), list(v)] for k, v in items], tags=tags, behaviour="items-differ")
+    jk = lambda ks: [list(k) for k in ks]
+    jv = lambda vs: [[_v(x) for x in v] for v in vs]          # values compared by type + repr (1 is not 1.0)
+    ekeys, evals = [k for k, _ in exp], [v for _, v in exp]
+    if keys != ekeys:
+        return failure("combination", case, jk(ekeys), jk(keys), tags=tags, behaviour="keys-differ")
+    if jv(values) != jv(evals):
+        return failure("combination", case, jv(evals), jv(values), tags=tags, behaviour="values-differ")
+    ikeys, ivals = [k for k, _ in items], [v for _, v in items]
+    if ikeys != ekeys:
+        beh = "items-index-tuples-differ"
+        if len(ikeys) == len(ekeys) and len(set(ikeys)) < len(ikeys):
+            beh = "items-index-tuples-repeated"
+        return failure("combination", case, jk(ekeys), jk(ikeys), tags=tags, behaviour=beh)
+    if jv(ivals) != jv(evals):
+        return failure("combination", case, jv(evals), jv(ivals), tags=tags, behaviour="items-values-differ")
     return None
 
 
@@ -773,6 +999,10 @@ def plan(tier, seed):
         shards.append(("grid", ncols, tier))
     for nl in range(COMB[tier]["lists"] + 1):
         shards.append(("comb", nl, tier))
+    # equality patterns inside the item lists: one shard per pattern of the first list (+ one for "no list")
+    shards.append(("combpat", None, tier))
+    for first in range(len(_pattern_lists(1, COMB[tier]["plength"]))):
+        shards.append(("combpat", first, tier))
     return shards
 
 
@@ -804,6 +1034,28 @@ def run_shard(desc):
                         sh.fail(bad)
                     elif n == 5 and ncols == 3 and tr and k == "list":
                         sh.sample(dict(part="grid", n=n, ncols=ncols, kind=k, transpose=tr))
+    elif kind == "combpat":
+        _, first, tier = desc
+        c = COMB[tier]
+        if first is None:
+            todo = [()]
+        else:
+            head = _pattern_lists(1, c["plength"])[first]
+            todo = [head + rest for nl in range(c["plists"]) for rest in _pattern_lists(nl, c["plength"])]
+        for pats in todo:
+            shape = tuple(len(p) for p in pats)
+            rep = any(len(set(p)) < len(p) for p in pats)
+            for variant in PVARIANTS:
+                bad = _comb_case(shape, variant, pats)
+                sh.evaluations += 1
+                if len(pats) >= 2:
+                    sh.nontrivial += 1
+                sh.count("combination:" + ("with-equal-values-in-a-list" if rep else "pattern-all-distinct"))
+                if bad:
+                    sh.fail(bad)
+                elif pats == ((0, 1, 0), (0, 0)) and variant == "pattern-eqtypes":
+                    sh.sample(dict(part="combination", variant=variant, patterns=[list(p) for p in pats],
+                                   lists=repr(_comb_lists(shape, variant, pats))))
     else:
         _, nl, tier = desc
         for shape in _shapes(nl, COMB[tier]["length"]):
@@ -826,7 +1078,8 @@ def replay(rec):
     if part == "grid":
         return _grid_case(c["n"], c["ncols"], c["kind"], c["transpose"])
     if part == "combination":
-        return _comb_case(tuple(c["shape"]), c["variant"])
+        pats = tuple(tuple(p) for p in c["patterns"]) if "patterns" in c else None
+        return _comb_case(tuple(c["shape"]), c["variant"], pats)
     hist = [list(op) for op in c["history"]]
     if part.startswith("table-"):
         keys = c["tier_bounds"]["keys"]
@@ -842,8 +1095,10 @@ def finish(total, tier, seed):
     clean = not total.failures and not total.known
     if clean:
         need = ["pt-keyed:del", "pt-keyed:set", "pt-keyed:append", "pt-unkeyed:del", "grid:with-missing-cells",
-                "grid:complete", "combination:empty-product", "combination:non-empty-product"]
+                "grid:complete", "combination:empty-product", "combination:non-empty-product",
+                "combination:with-equal-values-in-a-list", "pt-keyed:set!", "pt-keyed:append!", "pt-unkeyed:append!"]
         need += ["rc-%s:sort" % n for n in RC_CFG] + ["rc-%s:dict" % n for n in RC_CFG]
+        need += ["rc-%s:dict!" % n for n in RC_CFG if RC_CFG[n]["cols"] is not None]
         miss = [k for k in need if not h.get(k)]
         if miss:
             raise HarnessError("vacuous run, no cases of: %s" % miss)
@@ -860,18 +1115,21 @@ def finish(total, tier, seed):
 
 MANIFEST = dict(
     text="Explicit-state BFS on the real ParameterTable (keyed: 4 keys x 2 records, append/setitem/delete incl. absent "
-         "keys, roots empty and constructor-filled; un-keyed: 3 records, positional delete) to the fixed point of the "
+         "keys and REFUSED assignments (record cannot be built) as fault transitions, roots empty and "
+         "constructor-filled; un-keyed: 3 records, positional delete, refused append) to the fixed point of the "
          "state graph (depth bound 6) and on the real RowCollector in 5 configurations (list/array mode, declared, "
-         "typed and dict-defined columns; append list/dict, sort by every column asc/desc, rows with ties) to depth 5, "
-         "de-duplicated on vars(object); after every transition the complete public read-out is compared with an "
-         "insertion-ordered dict / list / list of rows (sort: monotone column, multiset of rows unchanged). All "
-         "operation sequences up to depth 3 are additionally executed unpruned. Complete enumeration of DataPlotGrid "
-         "(n 0..12, ncols 1..6, list/dict, normal/transposed: exact cover, index order, row/column-major) and "
-         "DataCombination (all 85 shapes of 0-3 item lists of length 0-3, 3 value variants, vs a nested-loop product). "
-         "Thorough: 5 keys, depth 7/6, unpruned depth 4, n 0..40 x ncols 1..12, 0-4 lists of length 0-4.",
+         "typed and dict-defined columns; append list/dict, refused dict rows, sort by every column asc/desc, rows "
+         "with ties) to depth 5, de-duplicated on vars(object); after every transition the complete public read-out "
+         "is compared with an insertion-ordered dict / list / list of rows (sort: monotone column, multiset of rows "
+         "unchanged). All operation sequences up to depth 3 are additionally executed unpruned. Complete enumeration "
+         "of DataPlotGrid (n 0..12, ncols 1..6, list/dict, normal/transposed: exact cover, index order, "
+         "row/column-major) and DataCombination (all 85 shapes of 0-3 item lists of length 0-3 in 3 value variants, "
+         "and all 820 tuples of equality patterns inside the item lists rendered as repeated labels, ==-equal values "
+         "of different type and unhashable equal values, vs a nested-loop product). Thorough: 5 keys, 2 pending "
+         "refusals, depth 7/6, unpruned depth 4, n 0..40 x ncols 1..12, 0-4 lists of length 0-4, patterns to length 4.",
     note="Trusted: Python dict/list semantics as the model, canonicalisation of vars(object) as the complete state. "
-         "Not covered: negative positions, integer keys, ragged rows, mixed-type columns, order among tied rows, "
-         "to_dataframe/to_text; histories beyond the bounds rely on the fixed point (table) / small-scope hypothesis "
-         "(row collector).",
-    technique="explicit-state BFS over operation histories on the real objects vs dict/list models; complete enumeration for grid and product",
+         "Not covered: negative positions, integer keys, ragged rows, mixed-type columns, order among tied rows, the "
+         "state between a refused assignment of a new key and its retry, to_dataframe/to_text; histories beyond the "
+         "bounds rely on the fixed point (table) / small-scope hypothesis (row collector).",
+    technique="explicit-state BFS over operation and fault histories on the real objects vs dict/list models; complete enumeration for grid and product",
 )
